@@ -252,13 +252,10 @@ pub fn def(ctx: &Ctx) -> PropertyDef {
     for p in progs {
         let two = p.threads.len() > 1;
         let workers = ctx.workers;
-        scenarios.push(program_scenario(p, awaited_oracle(), move |_c| IlvCfg {
-            bounds: if quick { if two { vec![0, 1] } else { vec![0, 1, 2] } } else if two { vec![0, 1, 2] } else { vec![0, 1, 2, 3] },
-            workers,
-            split_depth: 6,
-            time_cap_s: Some(if quick { 20.0 } else { 400.0 }),
-            max_executions: None,
-        }));
+        scenarios.push({
+                let nthreads = p.threads.len();
+                program_scenario(p, awaited_oracle(), move |c| crate::harness::ilv::tier_cfg(c, nthreads))
+            });
     }
     let mut assumptions = COMMON_ASSUMPTIONS.to_vec();
     assumptions.push("the waker contract is checked with counting wakers: a wake during or after the poll that registered it counts, a wake before it does not");
